@@ -174,5 +174,7 @@ func C04(c *fw.Ctx) {
 	if c.Hist("verdicts")["accepted"] < 500 {
 		c.Inconclusive("fewer than 500 accepted builds were serialised")
 	}
+	// the cost of writing the catalog on documents that repeat one construct n and 4n times (scaling.go)
+	scalingMonitor(c, c.Pool(false, 8), []string{"json", "jsonindent"})
 	c.Finish()
 }
